@@ -57,8 +57,8 @@ def StreamDataBuilder.build (b : StreamDataBuilder) : Res StreamData :=
   | some bw => .ok ⟨bw, b.average_bandwidth, b.codecs, b.resolution, b.hdcp_level, b.video⟩
   | none => .err
 
-/-- `DecryptionKeyBuilder`: `validate` demands `method` and `uri` to be set (nothing about their
-content — recorded finding K6: an empty URI builds) -/
+/-- `DecryptionKeyBuilder`: `validate` demands `method` and a `uri` that is not blank (after the `fix:` that makes
+the builder reject what the parser rejects; before it an empty URI built: former finding K6b) -/
 structure DecryptionKeyBuilder where
   method : Option EncryptionMethod := none
   uri : Option Str := none
@@ -69,7 +69,7 @@ deriving Repr, DecidableEq
 
 def DecryptionKeyBuilder.build (b : DecryptionKeyBuilder) : Res DecryptionKey :=
   match b.method, b.uri with
-  | some m, some u => .ok ⟨m, u, b.iv.getD .missing, b.format, b.versions⟩
+  | some m, some u => if (trim u).isEmpty then .err else .ok ⟨m, u, b.iv.getD .missing, b.format, b.versions⟩
   | _, _ => .err
 
 /-- `KeyFormatVersions::from_iter` -/
